@@ -279,6 +279,49 @@ Proof.
   destruct (bcons (call_block c)); [discriminate|]. lia.
 Qed.
 
+Lemma one_phase : forall cp o c p rest_succ rest_evs,
+  phase_okb cp false o c p = true ->
+  announced rest_evs = rest_succ -> chain (o_latest (p_db p)) rest_succ -> shape_okb rest_evs = true ->
+  announced (p_evs p ++ rest_evs) = success_of (c, p) ++ rest_succ /\
+  chain (o_latest o) (success_of (c, p) ++ rest_succ) /\
+  shape_okb (p_evs p ++ rest_evs) = true.
+Proof.
+  intros cp o c p rs re Hp IA IC IS. rewrite announced_app.
+  destruct (phase_facts _ _ _ _ Hp) as [[Hr [Hok [Hd He]]] | [r [Hr [Hn [_ [Hok [Hd He]]]]]]].
+  - unfold success_of. cbn [fst snd]. rewrite Hr, He, announced_ok_events, IA.
+    rewrite Hd in IC. cbn [after o_latest] in IC.
+    split; [reflexivity|]. split.
+    + cbn [app]. eapply next_height_chain; eassumption.
+    + rewrite shape_ok_events_app. exact IS.
+  - unfold success_of. cbn [fst snd]. rewrite Hr.
+    replace (match r with ROk => [bh (call_block c)] | _ => [] end) with (@nil N)
+      by (destruct r; try reflexivity; contradiction).
+    rewrite (announced_publish _ He), IA. rewrite Hd in IC.
+    split; [reflexivity|]. split; [exact IC|].
+    rewrite shape_publish_app; assumption.
+Qed.
+
+Lemma split_last_some : forall {A} (l : list A) pre x, split_last l = Some (pre, x) -> l = pre ++ [x].
+Proof.
+  induction l as [|y l IH]; intros pre x H; [discriminate|]. cbn [split_last] in H.
+  destruct l as [|z l'].
+  - injection H as <- <-. reflexivity.
+  - destruct (split_last (z :: l')) as [[pre' x']|] eqn:E; [|discriminate].
+    injection H as <- <-. rewrite (IH pre' x' eq_refl). reflexivity.
+Qed.
+
+Lemma rejected_facts : forall cp o bs pre, rejected_okb cp o bs pre = true ->
+  flat_map p_evs pre = [] /\ successes (combine bs pre) = [] /\
+  Forall (fun p => p_res p = Some RSemaphore /\ p_db p = o) pre.
+Proof.
+  induction bs as [|b bs IH]; intros pre H; destruct pre as [|p pre]; try discriminate.
+  - repeat split. constructor.
+  - cbn [rejected_okb] in H. apply Bool.andb_true_iff in H. destruct H as [Hp Hr].
+    destruct (phase_facts_busy _ _ _ _ Hp) as [H1 [H2 H3]]. destruct (IH _ Hr) as [I1 [I2 I3]].
+    cbn [flat_map combine successes]. rewrite H3, I1. unfold success_of at 1. cbn [fst snd]. rewrite H1.
+    fold (successes (combine bs pre)). rewrite I2. repeat split. constructor; [split; assumption | exact I3].
+Qed.
+
 Lemma replay_meaning_all : forall cp ops o obs,
   trace_okb cp o ops obs = true ->
   announced (all_events obs) = successes (calls_of ops obs) /\
@@ -287,7 +330,39 @@ Lemma replay_meaning_all : forall cp ops o obs,
 Proof.
   intros cp. induction ops as [|op ops IH]; intros o obs H.
   - destruct obs; [|discriminate]. repeat split.
-  - destruct op as [c | a b |]; cbn [trace_okb] in H.
+  - destruct op as [c | a b | | a bs]; cbn [trace_okb] in H.
+    4:{ (* a call parked on back-pressure *)
+      destruct obs as [|ps obs]; [discriminate|].
+      destruct (split_last ps) as [[pre lst]|] eqn:Esl; [|discriminate].
+      pose proof (split_last_some _ _ _ Esl) as Hps. subst ps.
+      cbn [calls_of all_events flat_map]. rewrite Esl. fold (all_events obs).
+      rewrite flat_map_app. cbn [flat_map]. rewrite app_nil_r.
+      destruct (parksb cp o a).
+      - apply Bool.andb_true_iff in H. destruct H as [H Ht].
+        apply Bool.andb_true_iff in H. destruct H as [Hrej Hpa].
+        specialize (IH _ _ Ht). destruct IH as [IA [IC IS]].
+        destruct (rejected_facts _ _ _ _ Hrej) as [Hev [Hsu _]].
+        rewrite Hev. cbn [app].
+        assert (Hres : exists r, p_res lst = Some r).
+        { destruct (phase_facts _ _ _ _ Hpa) as [[Hr _] | [r [Hr _]]]; eexists; exact Hr. }
+        destruct Hres as [r Hres]. rewrite Hres.
+        unfold successes. rewrite !flat_map_app. fold (successes (combine bs pre)).
+        fold (successes (calls_of ops obs)). rewrite Hsu. cbn [app flat_map]. rewrite app_nil_r.
+        pose proof (one_phase cp (with_held o 0) a lst _ _ Hpa IA IC IS) as H1.
+        exact H1.
+      - destruct pre as [|pa [|? ?]]; try discriminate.
+        apply Bool.andb_true_iff in H. destruct H as [H Ht].
+        apply Bool.andb_true_iff in H. destruct H as [H Hnil].
+        apply Bool.andb_true_iff in H. destruct H as [H Hdb].
+        apply Bool.andb_true_iff in H. destruct H as [Hpa Hnone].
+        apply dbobs_eqb_eq in Hdb.
+        specialize (IH _ _ Ht). destruct IH as [IA [IC IS]].
+        destruct (p_res lst) eqn:Eres; [discriminate|].
+        destruct (p_evs lst); [|discriminate]. cbn [flat_map app]. rewrite app_nil_r.
+        unfold successes. cbn [app flat_map]. fold (successes (calls_of ops obs)).
+        rewrite Hdb in IC. cbn [with_held o_latest] in IC.
+        pose proof (one_phase cp o a pa _ _ Hpa IA IC IS) as H1. rewrite app_nil_r.
+        exact H1. }
     + destruct obs as [|[|p [|? ?]] obs]; try discriminate.
       apply Bool.andb_true_iff in H. destruct H as [Hp Ht].
       specialize (IH _ _ Ht). destruct IH as [IA [IC IS]].
